@@ -87,6 +87,7 @@ def getattr_static(obj, attr, default=_sentinel):
        the attribute is a descriptor that has a `__get__` attribute.
     """
     instance_result = _sentinel
+    meta_result = _sentinel
     if not _is_type(obj):
         klass = type(obj)
         dict_attr = _shadowed_dict(klass)
@@ -97,8 +98,17 @@ def getattr_static(obj, attr, default=_sentinel):
             instance_result = _check_instance(obj, attr)
     else:
         klass = obj
+        # for types we check the metaclass too
+        meta_result = _check_class(type(klass), attr)
 
     klass_result = _check_class(klass, attr)
+
+    if meta_result is not _sentinel and klass_result is not _sentinel:
+        if _safe_hasattr(meta_result, '__get__') \
+                and _safe_is_data_descriptor(meta_result):
+            # Like for instances: A get/set descriptor of the metaclass has
+            # priority over the attributes of the class.
+            return meta_result, True
 
     if instance_result is not _sentinel and klass_result is not _sentinel:
         if _safe_hasattr(klass_result, '__get__') \
@@ -111,18 +121,10 @@ def getattr_static(obj, attr, default=_sentinel):
     if klass_result is not _sentinel:
         return klass_result, _safe_hasattr(klass_result, '__get__')
 
-    if obj is klass:
-        # for types we check the metaclass too
-        for entry in _static_getmro(type(klass)):
-            if _shadowed_dict(type(entry)) is _sentinel:
-                try:
-                    meta_result = entry.__dict__[attr]
-                except KeyError:
-                    pass
-                else:
-                    # Descriptors of the metaclass (e.g. properties) are
-                    # executed by `getattr(klass, attr)` as well.
-                    return meta_result, _safe_hasattr(meta_result, '__get__')
+    if meta_result is not _sentinel:
+        # Descriptors of the metaclass (e.g. properties) are executed by
+        # `getattr(klass, attr)` as well.
+        return meta_result, _safe_hasattr(meta_result, '__get__')
     if default is not _sentinel:
         return default, False
     raise AttributeError(attr)
